@@ -19,8 +19,11 @@ Two executable layers:
     an emptiness test.  These are the *verified* forecaster (Props/C19.lean).
   * `codeNexts` / `codeComplete`: what the code does — every partial derivation of the history
     (`positions`, the specification of the prefix parse) is walked by a model of
-    `ContinuingNodeVisitor` (`walkPos`/`walkNew`), line by line, including the early
-    `if tree_len >= rep_min: return True` of `visitRepetitionType` (flag `fixed := false`).
+    `ContinuingNodeVisitor` (`walkPos`/`walkNew`), line by line (the code as of /repo commits
+    ebdb490d, 8757f904, fc0f6663: an unfinished last iteration stops the walk; the empty history is
+    complete iff the parser accepts the empty word).
+  * `sliceG`: `slice_parties` / `PacketTruncator` as of ed4e9a62, e74d4443 (children removed by
+    position; an alternative that lost some of its children becomes optional).
 -/
 import Model.IR
 namespace FV
@@ -271,14 +274,13 @@ inductive Pos where
 
 def dedupM (l : List Msg) : List Msg := l.eraseDups
 
-/-- how many iterations the *parser* admits: `IterativeParser` compiles `*`/`+` to right-recursive
-    rules (unbounded) and `{n,}` to `node.max = MAX_REPETITIONS` nested optional rules -/
-def parseMax (kind : RepKind) (max : Option Nat) (cap bound : Nat) : Nat :=
+/-- how many iterations the *parser* admits: `IterativeParser` compiles `*`, `+` and (since b48dd899) the
+    open-ended `{n,}` to right-recursive rules - unbounded; `bound` is the number of iterations the input at
+    hand can fill.  (`cap` is kept as a parameter: the generator's repetition limit no longer plays a part.) -/
+def parseMax (_kind : RepKind) (max : Option Nat) (_cap bound : Nat) : Nat :=
   match max with
   | some m => m
-  | none => match kind with
-    | .braces => cap
-    | _ => bound
+  | none => bound
 
 /-- repetition driver for `fullWith`: `k` iterations done so far, `inps` the remainders; collects the
     remainders for every admissible count.  `step` = one complete match of the body. -/
@@ -450,41 +452,48 @@ def walkNewTab (G : Grammar) (cap : Nat) : Nat → String → Walk
     | none => ([], false)
 
 /-- `visitRepetitionType`, given the visit of the last iteration `(o, c)` (`(∅, True)` when the
-    repetition node has no children), `tree_len`, and the visit of a fresh iteration. -/
-def walkRepCore (fixed : Bool) (min maxv treeLen : Nat) (last : Walk) (fresh : Walk) : Walk :=
+    repetition node has no children), `tree_len`, and the visit of a fresh iteration:
+    ```
+    if tree present and non-empty:  c = visit(last iteration);  if not c: return False
+    if c and tree_len < rep_max:    c2 = visit(fresh iteration); if c2: return True
+    if tree_len >= rep_min: return True
+    return c (or c2)
+    ``` -/
+def walkRepCore (min maxv treeLen : Nat) (last : Walk) (fresh : Walk) : Walk :=
   let (o, c) := last
-  if c && decide (treeLen < maxv) then
+  if !c then (o, false)                      -- the last iteration is unfinished
+  else if treeLen < maxv then
     let (o2, c2) := fresh
     if c2 then (o ++ o2, true)
-    else if treeLen ≥ min then (o ++ o2, if fixed then c else true)
-    else (o ++ o2, c2)
-  else if treeLen ≥ min then (o, if fixed then c else true)
-  else (o, c)
+    else if treeLen ≥ min then (o ++ o2, true)
+    else (o ++ o2, false)
+  else if treeLen ≥ min then (o, true)
+  else (o, true)                             -- `return continue_exploring` (still True)
 
 /-- the visitor on a node whose (last) child is present at position `p` -/
-def walkPosWith (fixed : Bool) (ω : String → Walk) (G : Grammar) (cap : Nat) : Nat → Node → Pos → Walk
+def walkPosWith (ω : String → Walk) (G : Grammar) (cap : Nat) : Nat → Node → Pos → Walk
   | _, .nt _ (some _) _, .msg => ([], true)             -- a present message: continue
   | f + 1, .nt name none _, .nt p =>
     match G.rule name with
-    | some body => walkPosWith fixed ω G cap f body p
+    | some body => walkPosWith ω G cap f body p
     | none => ([], false)
   | f + 1, .alt _ ns, .alt i p =>
     match ns[i]? with
-    | some n => walkPosWith fixed ω G cap f n p
+    | some n => walkPosWith ω G cap f n p
     | none => ([], false)
   | f + 1, .cat _ ns, .cat i p =>
     match ns[i]? with
     | some n =>
-      let (o, c) := walkPosWith fixed ω G cap f n p
+      let (o, c) := walkPosWith ω G cap f n p
       if c then
         let (o2, c2) := walkNewCat ω cap (ns.drop (i + 1))
         (o ++ o2, c2)
       else (o, false)
     | none => ([], false)
   | f + 1, .rep _ _ n min max, .rep k p =>
-    walkRepCore fixed min (max.getD cap) (k + 1) (walkPosWith fixed ω G cap f n p) (walkNewWith ω cap n)
+    walkRepCore min (max.getD cap) (k + 1) (walkPosWith ω G cap f n p) (walkNewWith ω cap n)
   | _, .rep _ _ n min max, .rep0 =>           -- `tree` is the empty list: tree_len = 0
-    walkRepCore fixed min (max.getD cap) 0 ([], true) (walkNewWith ω cap n)
+    walkRepCore min (max.getD cap) 0 ([], true) (walkNewWith ω cap n)
   | _, _, _ => ([], false)                  -- ill-typed position: GrammarKeyError in the code
 
 def posDepth : Pos → Nat
@@ -496,27 +505,24 @@ def posDepth : Pos → Nat
   | .rep0 => 1
 
 /-- `PacketForecaster.predict`: union over the partial derivations of the history -/
-def codeNexts (fixed : Bool) (G : Grammar) (cap F : Nat) (start : Node) (h : List Msg) : List Msg :=
+def codeNexts (G : Grammar) (cap F : Nat) (start : Node) (h : List Msg) : List Msg :=
   let ω := walkNewTab G cap F
   match h with
   | [] => dedupM (walkNewWith ω cap start).1
   | _ => dedupM ((positions G cap F start h).flatMap
-            (fun p => (walkPosWith fixed ω G cap (posDepth p + 1) start p).1))
+            (fun p => (walkPosWith ω G cap (posDepth p + 1) start p).1))
 
-/-- `complete_trees` is non-empty: the parser reported a complete parse; `predict` never looks for
-    one when the history is empty -/
+/-- `complete_trees` is non-empty: the parser reported a complete parse (for the empty history the
+    parser is asked in `ParsingMode.COMPLETE` whether the protocol allows the empty interaction) -/
 def codeComplete (G : Grammar) (F : Nat) (start : Node) (h : List Msg) : Bool :=
-  !h.isEmpty && complete G F start h
+  complete G F start h
 
 /-! ### slicing to a set of parties (`slice_parties` / `PacketTruncator`) -/
 
-/-- configuration of a slice: `keep_parties`, `ignore_receivers`, and `byEq`: whether a truncated
-    child is removed the way the code does it — `list.remove(child)`, i.e. the *first* element that is
-    `==` to it, where `NonTerminalNode.__eq__` compares the symbol only — or by position (intended) -/
+/-- configuration of a slice: `keep_parties`, `ignore_receivers` -/
 structure SliceCfg where
   keep : List String
   ignoreRecv : Bool
-  byEq : Bool
 
 /-- `PacketTruncator.visitNonTerminalNode` -/
 def truncMsg (cfg : SliceCfg) (deleted : List String) (name : String) (s r : Option String) : Bool :=
@@ -529,58 +535,46 @@ def truncMsg (cfg : SliceCfg) (deleted : List String) (name : String) (s r : Opt
     | some s, some r => !(cfg.keep.contains s) && !(cfg.keep.contains r)
     | _, _ => false
 
-/-- `NonTerminalNode.__eq__` / `TerminalNode.__eq__`: same symbol; every other node class compares by
-    identity, which the position stands for -/
-def nodeEqPy (a : Nat × Node) (b : Nat × Node) : Bool :=
-  match a.2, b.2 with
-  | .nt n1 _ _, .nt n2 _ _ => n1 == n2
-  | .term t1, .term t2 => decide (t1 = t2)
-  | _, _ => a.1 == b.1
+/-- id of the `Option` node that `visitAlternative` creates: `f"{NodeType.OPTION}:{node.id}"` -/
+def optId (id : String) : String := "option:" ++ id
+/-- id of the `Alternative` of the remaining children: `f"{node.id}_visible"` -/
+def visId (id : String) : String := id ++ "_visible"
 
-def eraseFirst (p : (Nat × Node × Node) → Bool) : List (Nat × Node × Node) → List (Nat × Node × Node)
-  | [] => []
-  | x :: xs => if p x then xs else x :: eraseFirst p xs
+/-- `rest` of `visitAlternative`: the only visible child, or a new alternative of the visible children -/
+def altRest (id : String) (vis : List Node) : Node :=
+  match vis with
+  | [x] => x
+  | _ => .alt (visId id) vis
 
-/-- the loop `for child in list(children): if visit(child): children.remove(child)`.
-    `marks`: (original child, result of its visit); `cur`: (position, original child, child after its
-    own visit) of the children still in the list. -/
-def applyMarks (byEq : Bool) : Nat → List (Node × Option Node) → List (Nat × Node × Node) →
-    List (Nat × Node × Node)
-  | _, [], cur => cur
-  | i, (orig, mark) :: rest, cur =>
-    match mark with
-    | some _ => applyMarks byEq (i + 1) rest cur
-    | none =>
-      let cur' := if byEq then eraseFirst (fun x => nodeEqPy (x.1, x.2.1) (i, orig)) cur
-                  else eraseFirst (fun x => x.1 == i) cur
-      applyMarks byEq (i + 1) rest cur'
-
-def indexFrom : Nat → List (Node × Option Node) → List (Nat × Node × Node)
-  | _, [] => []
-  | i, (orig, mark) :: rest => (i, orig, mark.getD orig) :: indexFrom (i + 1) rest
-
-def keptKids (byEq : Bool) (marks : List (Node × Option Node)) : List Node :=
-  (applyMarks byEq 0 marks (indexFrom 0 marks)).map (fun x => x.2.2)
+/-- `PacketTruncator.visitAlternative`, given the number of children and the visible children after their
+    own visits: all invisible - delete the node; all visible - keep them; otherwise the alternatives of
+    invisible messages are "the empty way through": the rest becomes optional -/
+def altResult (id : String) (n : Nat) (vis : List Node) : Option Node :=
+  if vis.isEmpty then none
+  else if vis.length = n then some (.alt id vis)
+  else some (.alt id [.rep (optId id) .opt (altRest id vis) 0 (some 1)])
 
 mutual
 /-- one visit of `PacketTruncator`: `none` = "delete me" (the visitor returned True), `some n'` = the
-    node after the in-place removals -/
+    node after the in-place changes -/
 def truncNode (cfg : SliceCfg) (deleted : List String) : Node → Option Node
   | .term t => some (.term t)
   | .nt name s r => if truncMsg cfg deleted name s r then none else some (.nt name s r)
-  | .alt id ns =>
-    let ns' := keptKids cfg.byEq (truncMarks cfg deleted ns)
-    if ns'.isEmpty then none else some (.alt id ns')
+  | .alt id ns => altResult id ns.length (truncKids cfg deleted ns)
   | .cat id ns =>
-    let ns' := keptKids cfg.byEq (truncMarks cfg deleted ns)
-    if ns'.isEmpty then none else some (.cat id ns')
+    let ks := truncKids cfg deleted ns
+    if ks.isEmpty then none else some (.cat id ks)
   | .rep id kind n min max =>
     match truncNode cfg deleted n with
     | none => none
     | some n' => some (.rep id kind n' min max)
-def truncMarks (cfg : SliceCfg) (deleted : List String) : List Node → List (Node × Option Node)
+/-- `[child for child in children if not self.visit(child)]` (each child after its own visit) -/
+def truncKids (cfg : SliceCfg) (deleted : List String) : List Node → List Node
   | [] => []
-  | n :: ns => (n, truncNode cfg deleted n) :: truncMarks cfg deleted ns
+  | n :: ns =>
+    match truncNode cfg deleted n with
+    | none => truncKids cfg deleted ns
+    | some n' => n' :: truncKids cfg deleted ns
 end
 
 /-- one round over all rules: (remaining rules, names deleted in this round) -/
@@ -611,6 +605,32 @@ def visible (cfg : SliceCfg) (m : Msg) : Bool :=
 
 /-- projection of an interaction onto the kept parties -/
 def project (cfg : SliceCfg) (w : List Msg) : List Msg := w.filter (visible cfg)
+
+/-! ### certificate for the slicing theorem (`C19_slice_commutes`) -/
+
+mutual
+/-- well-formed: an alternative has at least one child, repetition bounds are consistent (`min ≤ max`) -/
+def wf : Node → Bool
+  | .term _ => true
+  | .nt _ _ _ => true
+  | .alt _ ns => !ns.isEmpty && wfL ns
+  | .cat _ ns => wfL ns
+  | .rep _ _ n min max => boundsOk min max && wf n
+def wfL : List Node → Bool
+  | [] => true
+  | n :: ns => wf n && wfL ns
+end
+
+def nodupB : List String → Bool
+  | [] => true
+  | x :: xs => !xs.contains x && nodupB xs
+
+/-- hypotheses of the slicing theorem, checked by the driver for every sliced grammar: rule names are
+    distinct (a `dict`), every rule body is well-formed, and no message type is also unfolded as a
+    nonterminal of the protocol level (its content rule is not part of the message-level grammar) -/
+def sliceCert (G : Grammar) : Bool :=
+  nodupB (G.rules.map (·.1)) &&
+    G.rules.all (fun p => wf p.2 && (msgsOf p.2).all (fun m => (G.rule m.type).isNone))
 
 end Fc
 end FV
